@@ -80,7 +80,7 @@ func (v *BufferedFile) Seek(offset int64, whence int) (int64, error) {
 		return v.currentOffset, errors.New("TODO seek from end of file not implemented")
 	}
 
-	if newOffset == -1 {
+	if newOffset < 0 {
 		return v.currentOffset, errors.New("seeking to negative file offset")
 	}
 
